@@ -965,8 +965,22 @@ func isFormLookupUnderOk(st km.DNF, base ssa.Value) bool {
 }
 
 func idxBelowLen(st km.DNF, idx, base ssa.Value) bool {
+	// an array (or pointer to one): the length is a constant of the type
+	arrLen := int64(-1)
+	bt := base.Type().Underlying()
+	if pt, isP := bt.(*types.Pointer); isP {
+		bt = pt.Elem().Underlying()
+	}
+	if at, isA := bt.(*types.Array); isA {
+		arrLen = at.Len()
+	}
 	return st.All(func(k km.Conj) bool {
 		for _, f := range k.List() {
+			if arrLen >= 0 && f.Op == token.LSS && km.Unwrap(f.X) == km.Unwrap(idx) {
+				if n, isC := km.ConstInt(f.Y); isC && n <= arrLen && isWholeRangeIndex(idx) {
+					return true
+				}
+			}
 			if f.Op == token.LSS && km.Unwrap(f.X) == km.Unwrap(idx) {
 				if cl, ok := f.Y.(*ssa.Call); ok {
 					if bi, ok := cl.Common().Value.(*ssa.Builtin); ok && bi.Name() == "len" && sameOperand(cl.Common().Args[0], base) {
